@@ -751,7 +751,7 @@ def judge_c02_group(cases, lab):
     for c in cases:
         r = observe.call(lambda: g.root.evaluate(copy.deepcopy(dec(c["a"]["o"]))), lab)
         lazy = lazy or r.get("lazy")
-        for dm in c["a"]["dem"]:
+        for dm in c["a"].get("demk", c["a"]["dem"]):   # identified by the options the dataset depends on (DemK)
             demands.setdefault(dm["d"], set()).add(canon_val(dm["oe"]))
     if not lazy:
         total = {}
